@@ -119,3 +119,41 @@ Qed.
 
 Lemma length_upd {A} : forall (l : list A) n x, length (upd l n x) = length l.
 Proof. induction l as [|h t IH]; intros n x; [reflexivity|]. destruct n; cbn; [reflexivity|]. f_equal. apply IH. Qed.
+
+Lemma nth_firstn_lt {A} (d : A) : forall k i (l : list A), (i < k)%nat -> nth i (firstn k l) d = nth i l d.
+Proof.
+  induction k as [|k IH]; intros i l H; [lia|]. destruct l as [|x l]; [destruct i; reflexivity|].
+  destruct i; cbn; [reflexivity|]. apply IH. lia.
+Qed.
+
+Lemma nth_skipn_add {A} (d : A) : forall a i (l : list A), nth i (skipn a l) d = nth (a + i) l d.
+Proof.
+  induction a as [|a IH]; intros i l; [reflexivity|]. destruct l as [|x l]; [destruct i; reflexivity|]. cbn. apply IH.
+Qed.
+
+Lemma map_seq_shift {A} (g : nat -> A) a k : map (fun i => g (a + i)%nat) (seq 0 k) = map g (seq a k).
+Proof.
+  rewrite <- (map_map (fun i => (a + i)%nat) g). f_equal.
+  revert a. induction k as [|k IH]; intros a; [reflexivity|].
+  cbn [seq map]. rewrite Nat.add_0_r. f_equal.
+  rewrite <- seq_shift, map_map. rewrite <- (IH (S a)). apply map_ext. intros i. lia.
+Qed.
+
+Lemma firstn_seq a n k : (k <= n)%nat -> firstn k (seq a n) = seq a k.
+Proof. revert a n. induction k as [|k IH]; intros a n H; [reflexivity|]. destruct n; [lia|]. cbn. f_equal. apply IH. lia. Qed.
+
+Lemma skipn_seq a n k : skipn k (seq a n) = seq (a + k) (n - k).
+Proof.
+  revert a n. induction k as [|k IH]; intros a n; [rewrite Nat.add_0_r, Nat.sub_0_r; reflexivity|].
+  destruct n; [reflexivity|]. cbn [seq skipn]. rewrite IH. f_equal; lia.
+Qed.
+
+Lemma slice_slice {A} (l : list A) from to_ start stop :
+  0 <= from -> 0 <= start <= stop -> from + stop <= to_ ->
+  slice (from + start) (from + stop) l = slice start stop (slice from to_ l).
+Proof.
+  intros H1 H2 H3. unfold slice, firstnz, skipnz.
+  rewrite skipn_firstn_comm. rewrite firstn_firstn.
+  replace (Z.to_nat (from + start)) with (Z.to_nat from + Z.to_nat start)%nat by lia.
+  rewrite skipn_add_nat. f_equal. lia.
+Qed.
